@@ -47,7 +47,7 @@ def run(db, chk):
     ext = const_val(db, "io::commit::MANIFEST_EXTENSION")
     prefix = const_val(db, "io::commit::DETACHED_VERSION_PREFIX")
     vdir = const_val(db, "io::commit::VERSIONS_DIR")
-    v2len = const_val(db, "io::commit::ManifestNamingScheme::detect_scheme::V2_LEN")
+    v2len = (db.consts.get("io::commit::ManifestNamingScheme::detect_scheme::V2_LEN") or {}).get("val")   # optional: decided below
     mask = const_val(db, "format::manifest::DETACHED_VERSION_MASK")
     mp = db.one(r"^io::commit::ManifestNamingScheme::manifest_path$", file=FILE)
     pv = db.one(r"^io::commit::ManifestNamingScheme::parse_version$", file=FILE)
@@ -161,14 +161,28 @@ def run(db, chk):
     sw_ = calls(ds, "str>::starts_with")
     ew_ = calls(ds, "str>::ends_with")
     ln_ = calls(ds, "str>::len")
-    chk.ob(R, "detect:prefix-first", len(sw_) == 1 and len(ew_) == 1 and dc.dominates(sw_[0][0], ew_[0][0]) and
-           sw_[0][1]["args"][1].get("cdef", "").endswith("DETACHED_VERSION_PREFIX") and
-           ew_[0][1]["args"][1].get("cdef", "").endswith("MANIFEST_EXTENSION"),
+    ext_any = [(b, t) for b, t in dc.calls() if len(t["args"]) == 2 and (t["args"][1].get("cdef") or "").endswith("MANIFEST_EXTENSION")]
+    pre = [(b, t) for b, t in sw_ if t["args"][1].get("cdef", "").endswith("DETACHED_VERSION_PREFIX")]
+    chk.ob(R, "detect:prefix-first", len(pre) == 1 and bool(ext_any) and all(dc.dominates(pre[0][0], b) for b, _ in ext_any),
            "detect_scheme tests the detached prefix, then the manifest extension", ds.loc())
+    # a published manifest name ENDS with the extension: staged files are `<final name>-<uuid>` and must not be detected.  The
+    # extension is therefore tested with ends_with on the name (or equality on the split-off extension), never starts_with
+    ext_tests = [(b, t) for b, t in dc.calls() if len(t["args"]) == 2 and (t["args"][1].get("cdef") or "").endswith("MANIFEST_EXTENSION")]
+    exact = [(b, t) for b, t in ext_tests if name_of(t).endswith(("::ends_with", "PartialEq::eq", "PartialEq::ne", "::eq", "::ne"))]
+    loose = [(b, t) for b, t in ext_tests if name_of(t).endswith(("::starts_with", "::contains", "::find"))]
+    chk.ob(R, "detect:extension-exact", bool(exact) and not loose,
+           "detect_scheme tests the manifest extension with %s%s" % (sorted({name_of(t).split("::")[-1] for _, t in ext_tests}) or "nothing",
+                                                                      "" if exact and not loose else
+                                                                      ": a staged `<name>.manifest-<uuid>` is detected as a published manifest and can become the latest version"),
+           ds.loc(ext_tests[0][1]["ln"]) if ext_tests else ds.loc())
     eqs = [(i, s) for i, j, s in dc.stmts() if s.get("rv", {}).get("r") == "bin" and s["rv"]["op"] == "Eq"]
     okl = len(eqs) == 1 and (eqs[0][1]["rv"]["b"].get("cdef") or "").endswith("V2_LEN") and len(ln_) == 1
-    chk.ob(R, "detect:len==V2_LEN", okl, "V2 is chosen iff filename.len() == V2_LEN", ds.loc())
-    chk.ob(R, "V2_LEN=width+1+len(ext)", width is not None and v2len == width + 1 + len(ext),
+    # the same decision written on the split-off version part: `<version part>.len() == 20`
+    lens_ = calls(ds, "::len")
+    alt = width is not None and len(eqs) == 1 and eqs[0][1]["rv"]["b"].get("v") in (width, width + 1 + len(ext)) and len(lens_) >= 1
+    chk.ob(R, "detect:len==V2_LEN", okl or alt, "V2 is chosen iff the name has the V2 length (%s)" % (
+        "filename.len() == V2_LEN" if okl else "a length compared with %s" % eqs[0][1]["rv"]["b"].get("v") if alt else "no such test"), ds.loc())
+    chk.ob(R, "V2_LEN=width+1+len(ext)", width is not None and (v2len == width + 1 + len(ext) or (v2len is None and alt)),
            "V2_LEN = %s, width %s + 1 + len(%r) = %s" % (v2len, width, ext, (width or 0) + 1 + len(ext)), ds.loc())
     # result table by constrained reachability over the three boolean tests
     if len(sw_) == 1 and len(ew_) == 1 and okl:
